@@ -1,6 +1,7 @@
 package main
 
 import (
+	"bytes"
 	"encoding/hex"
 	"fmt"
 	"math"
@@ -44,8 +45,16 @@ func goDecodeMessage(p string, data []byte) (seq int32, batch m3thrift.MetricBat
 	return seqID, args.Batch, nil
 }
 
+type c16Handler struct{ got *m3thrift.MetricBatch }
+
+func (h *c16Handler) EmitMetricBatchV2(batch m3thrift.MetricBatch) error {
+	b := batch
+	h.got = &b
+	return nil
+}
+
 func suiteC16(c *Ctx) {
-	c.Cov.Rule = "random MetricBatch values (0-200 metrics and the sizes 127, 128, 255, 256, 257, 300, 499, 500, 0-16 tags, byte strings up to 1KiB incl. non-UTF-8, int64/float64 extremes, all metric kinds, nil vs empty optional lists) encoded by the real generated client through ONE reused protocol object per protocol (sequence ids grow past 127 and 16383), compared byte for byte with the Lean encoder, decoded by the Lean decoder and by the Go reader; per metric the calc-transport count vs the real encoding length vs the model; nontrivial = the batch has >14 metrics or a metric >14 tags or a string >127 bytes or an extreme number or a nil/empty optional list; distinct by message bytes"
+	c.Cov.Rule = "random MetricBatch values (0-200 metrics and the sizes 127, 128, 255, 256, 257, 300, 499, 500, 0-16 tags, byte strings up to 1KiB incl. non-UTF-8, int64/float64 extremes, all metric kinds, nil vs empty optional lists) encoded by the real generated client through ONE reused protocol object per protocol (sequence ids grow past 127 and 16383), compared byte for byte with the Lean encoder, decoded by the Lean decoder, by the Go reader on a fresh buffer and by a long-lived server route (one TBufferedReadTransport + protocol + M3Processor per protocol for the whole run, every seventh message preceded by a datagram the server cannot use: noise, a truncated message, trailing bytes); per metric the calc-transport count vs the real encoding length vs the model; nontrivial = the batch has >14 metrics or a metric >14 tags or a string >127 bytes or an extreme number or a nil/empty optional list; distinct by message bytes"
 	for _, p := range []string{"c", "b"} {
 		trans := thrift.NewTMemoryBuffer()
 		client := m3thrift.NewM3ClientFactory(trans, protoFactory(p))
@@ -53,6 +62,13 @@ func suiteC16(c *Ctx) {
 		calcProto := protoFactory(p).GetProtocol(calc)
 		realBuf := thrift.NewTMemoryBuffer()
 		realProto := protoFactory(p).GetProtocol(realBuf)
+		// the receiving side as a server runs it: ONE long-lived read transport + protocol + processor; every datagram is
+		// handed over with Write (which replaces what was there) and processed; what the handler is given must be the
+		// batch that was sent - whatever arrived before (also a datagram that was not consumed to its end)
+		srvTrans, _ := customtransport.NewTBufferedReadTransport(bytes.NewBuffer(nil))
+		srvProto := protoFactory(p).GetProtocol(srvTrans)
+		srvHandler := &c16Handler{}
+		srv := m3thrift.NewM3Processor(srvHandler)
 		n := c.N(400, 6000)
 		// start the sequence counter near interesting boundaries now and then
 		for i := 0; i < n; i++ {
@@ -135,6 +151,50 @@ func suiteC16(c *Ctx) {
 					gm = []m3thrift.Metric{}
 				}
 				c.Cov.Check(c.Drv, fmt.Sprintf("dec %s %s => %d %s %s", p, hx(data), seq, tagsTok(got.CommonTags), metricsTok(gm)), "c16-decode-"+p)
+			}
+			// the server route on the same bytes
+			if err == nil {
+				if i%7 == 3 {
+					// first a datagram the server cannot use: noise, a truncated message, or a message with trailing bytes
+					var junk []byte
+					switch r.Intn(3) {
+					case 0:
+						junk = []byte(genBytesStr(r, 40))
+					case 1:
+						junk = append([]byte(nil), data[:len(data)/2]...)
+					default:
+						junk = append(append([]byte(nil), data...), 0x7f, 0x00, 0x33)
+					}
+					srvTrans.Write(junk)
+					catch(func() { srv.Process(srvProto, srvProto) })
+					c.Cov.Hit("server-route.unusable-datagram-first")
+				}
+				srvHandler.got = nil
+				srvTrans.Write(data)
+				var perr error
+				if p2, v := catch(func() { _, e := srv.Process(srvProto, srvProto); perr = e }); p2 {
+					perr = fmt.Errorf("panic: %v", v)
+				}
+				switch {
+				case perr != nil:
+					c.Cov.Fail(Failure{Kind: "violated", Clause: "roundtrip", Signature: "c16-server-route-rejects-encoding", Line: line, Reply: "a long-lived TBufferedReadTransport + M3Processor: " + perr.Error()})
+				case srvHandler.got == nil:
+					c.Cov.Fail(Failure{Kind: "violated", Clause: "roundtrip", Signature: "c16-server-route-no-batch", Line: line, Reply: "the processor did not hand a batch to the handler"})
+				default:
+					sm := srvHandler.got.Metrics
+					if sm == nil {
+						sm = []m3thrift.Metric{}
+					}
+					gm := got.Metrics
+					if gm == nil {
+						gm = []m3thrift.Metric{}
+					}
+					if a, b := tagsTok(srvHandler.got.CommonTags)+" "+metricsTok(sm), tagsTok(got.CommonTags)+" "+metricsTok(gm); a != b {
+						c.Cov.Fail(Failure{Kind: "violated", Clause: "roundtrip", Signature: "c16-server-route-decodes-another-batch", Line: line,
+							Reply: fmt.Sprintf("decoded through a long-lived read transport and processor: %.300s ; decoded from a fresh buffer: %.300s", a, b)})
+					}
+				}
+				c.Cov.Hit("server-route.decoded")
 			}
 			// per-metric size: calc transport vs real encoder vs model; max placeholder bound
 			for j, m := range batch.Metrics {
